@@ -18,7 +18,8 @@ RULE = ('cases: each of the 12 functions encoded through AnnexJCodec.indication 
         'None/absent fields, addresses of the wrong length, tables changed after construction); every produced frame decoded '
         'through AnnexJCodec.confirmation, plus mutations of it (type octet, function octet, length field, truncation, extension, '
         'random octet); every function code 0..255 x several bodies with a consistent header; all 1-octet strings, grids of '
-        '2..4-octet strings; random strings; tables naming one station several times under different masks / TTLs; histories of 2..6 '
+        '2..4-octet strings; random strings; wrong length fields related to the datagram length (L-4, L+4, L-10k, byte swap, '
+        'hi << (8+lo) = L) on representative frames of every function; tables naming one station several times under different masks / TTLs; histories of 2..6 '
         'decodes/encodes on one codec (stations recurring with other masks, one NPDU forwarded for several originators, repeated '
         'tables, messages constructed without arguments) whose decoded messages are inspected after the whole history.  non-trivial = an encode of a message with >= 1 parameter octet or a refusal '
         'with a reason, a decode that delivers a message or refuses after reading >= 1 octet; distinct by (operation, input).')
@@ -645,6 +646,46 @@ def header(fn, total, t=0x81):
 
 BODY_LENS = [0, 1, 2, 3, 5, 6, 7, 9, 10, 11, 12, 16, 20, 30]
 
+# datagram lengths for the wrong-length-field sweeps (small, around every multiple of 256 the property's range
+# reaches with a one-bit high octet, and the largest frames)
+LEN_GRID = list(range(4, 21)) + [255, 256, 257, 258, 511, 512, 513, 514, 767, 768, 769, 1023, 1024, 1025, 1026,
+                                 1279, 1280, 1281, 1497, 1498, 1499, 1500, 1501, 1507]
+
+
+def representative_frames(rng):
+    """(function, valid frame) for every function: fixed-size ones, acks and tables with 0..3 entries, NPDU carriers
+    with payloads up to the largest, including datagram lengths 256, 512, 768, 1024, 1280"""
+    out = []
+    pool = g_pool(rng, 3)
+    out.append(spec_frame(['result', g_short(rng)]))
+    for k in TABLE_KINDS:
+        for n in (0, 1, 2, 3):
+            out.append(spec_frame(g_rep_table(rng, k, pool, n) if n else [k, []]))
+    out += [spec_frame(['rbdt']), spec_frame(['rfdt']), spec_frame(['regfd', g_short(rng)]), spec_frame(['delfdt', pool[0]])]
+    for n in (0, 4, 246, 502, 1014, 1497):
+        out.append(spec_frame(['fwd', pool[1], g_payload(rng, n)]))
+    for k in ('dist', 'ouni', 'obcast'):
+        for n in ((0, 8, 1497) if k == 'dist' else (0, 1, 8, 252, 508, 764, 1020, 1276, 1497)):
+            out.append(spec_frame([k, g_payload(rng, n)]))
+    return out
+
+
+def structured_fields(L):
+    """wrong length-field values with some arithmetic relation to the datagram length L: near misses, header-size and
+    entry-size offsets, byte-swapped, off by a power of two, and every (hi, lo) with lo < 16 (shift / precedence slips)"""
+    vs = set()
+    for d in list(range(1, 17)) + [20, 24, 30, 40, 100, 256, 512, 1000, 1024, 4096, 0x8000] + [10 * k for k in range(1, 41)]:
+        vs.update([L - d, L + d])
+    vs.update([0, 4, 6, 10, 0xFFFF, 0xFF00, 0x00FF, ((L & 255) << 8) | (L >> 8), L >> 1, L << 1, L ^ 0xFFFF, L - 4 - 6, L * 10, L // 10])
+    for k in range(16):
+        vs.update([L ^ (1 << k), 1 << k])
+    for hi in range(256):
+        for lo in range(16):
+            vs.add((hi << 8) | lo)
+            if 0 < hi << (8 + lo) < 65536 and (hi << (8 + lo)) == L:
+                vs.add((hi << 8) | lo)
+    return sorted(v for v in vs if 0 <= v <= 0xFFFF and v != L)
+
 
 def cases(rng, tier):
     out = []
@@ -691,6 +732,18 @@ def cases(rng, tier):
             out.append(case_dec(header(fn, 4 + n) + body, 'dec-fn'))
         body = bytes(rng.randrange(256) for _ in range(rng.randrange(12)))
         out.append(case_dec(header(fn, 4 + len(body) + rng.choice([-1, 1, 256])) + body, 'dec-fn-badlen'))
+    # wrong length fields related to the datagram length (header / entry size offsets, byte swap, shift slips)
+    for bs in representative_frames(rng):
+        L = len(bs)
+        vals = [L - 4, L + 4, L - 10, L + 10, L - 6, L - 14, L - 20, L + 256, ((L & 255) << 8) | (L >> 8), L >> 1, L << 1]
+        vals += [(hi << 8) | lo for hi in range(1, 256) for lo in range(16) if (hi << (8 + lo)) == L]
+        if L > 300:
+            vals = vals[:3] + vals[11:] + [rng.choice(structured_fields(L))]
+        else:
+            vals += rng.sample(structured_fields(L), 4)
+        for v in sorted(set(v & 0xFFFF for v in vals if v >= 0)):
+            if v != L:
+                out.append(case_dec(bs[:2] + bytes([v >> 8, v & 255]) + bs[4:], 'dec-badlen'))
     # short strings
     out.append(case_dec(b'', 'dec-short'))
     for a in range(256):
@@ -800,17 +853,17 @@ def direct(rng, tier, focus=()):
         stats['evaluations'] += 1
         st, x = try_decode(bs)
         if st == 'ok':
-            fail('accepted-' + why, octets=bs.hex()[:400], delivered=type(x).__name__, **kw)
+            fail('accepted-' + why, octets=bs.hex(), delivered=type(x).__name__, **kw)
         elif st == 'error':
-            fail('wrong-exception-' + why, octets=bs.hex()[:400], exc=x, **kw)
+            fail('wrong-exception-' + why, octets=bs.hex(), exc=x, **kw)
 
     def check_accepted_frame_consistent(bs, x):
         """whatever is delivered must come from a frame whose type and length agree with the datagram
         and whose function names the delivered class"""
         if not (len(bs) >= 4 and bs[0] == 0x81 and bs[2] * 256 + bs[3] == len(bs)):
-            fail('accepted-inconsistent-header', octets=bs.hex()[:400], delivered=type(x).__name__)
+            fail('accepted-inconsistent-header', octets=bs.hex(), delivered=type(x).__name__)
         elif CODES.get(KIND_OF_CLASS.get(type(x).__name__)) != bs[1]:
-            fail('accepted-wrong-class', octets=bs.hex()[:400], delivered=type(x).__name__, fn=bs[1])
+            fail('accepted-wrong-class', octets=bs.hex(), delivered=type(x).__name__, fn=bs[1])
 
     # 1. production + round trip over the property's domain
     specs = valid_specs(rng, tier)
@@ -832,20 +885,20 @@ def direct(rng, tier, focus=()):
             fail('encode-no-frame', msg=jdesc(m))
             continue
         if len(bs) < 4 or bs[0] != 0x81:
-            fail('type-octet', msg=jdesc(m), octets=bs.hex()[:400])
+            fail('type-octet', msg=jdesc(m), octets=bs.hex())
         elif bs[1] != CODES[m[0]]:
-            fail('function-code', msg=jdesc(m), octets=bs.hex()[:400])
+            fail('function-code', msg=jdesc(m), octets=bs.hex())
         elif bs[2] * 256 + bs[3] != len(bs):
-            fail('length-field', msg=jdesc(m), declared=bs[2] * 256 + bs[3], actual=len(bs), octets=bs.hex()[:400])
+            fail('length-field', msg=jdesc(m), declared=bs[2] * 256 + bs[3], actual=len(bs), octets=bs.hex())
         elif bs != want:
-            fail('layout', msg=jdesc(m), octets=bs.hex()[:400], want=want.hex()[:400])
+            fail('layout', msg=jdesc(m), octets=bs.hex(), want=want.hex()[:400])
         st, x = try_decode(bs)
         if st != 'ok':
-            fail('roundtrip-refused', msg=jdesc(m), octets=bs.hex()[:400], how=str(x))
+            fail('roundtrip-refused', msg=jdesc(m), octets=bs.hex(), how=str(x))
         else:
             got = canon_obj(x)
             if got != spec_params(m) or x.bvlciFunction != CODES[m[0]] or x.bvlciLength != len(bs):
-                fail('roundtrip-differs', msg=jdesc(m), octets=bs.hex()[:400], got=got[:80], want=spec_params(m)[:80])
+                fail('roundtrip-differs', msg=jdesc(m), octets=bs.hex(), got=got[:80], want=spec_params(m)[:80])
         frames.append(want)
     samples.append({'direct': 'layout+length+roundtrip', 'msg': jdesc(specs[5]), 'frame': spec_frame(specs[5]).hex()[:120]})
 
@@ -862,11 +915,11 @@ def direct(rng, tier, focus=()):
         if bs is None:
             continue
         if len(bs) < 4 or bs[0] != 0x81 or bs[1] != CODES[fin[0]]:
-            fail('type-octet' if (len(bs) < 1 or bs[0] != 0x81) else 'function-code', msg=jdesc(fin), ctor=jdesc(ctor), octets=bs.hex()[:400])
+            fail('type-octet' if (len(bs) < 1 or bs[0] != 0x81) else 'function-code', msg=jdesc(fin), ctor=jdesc(ctor), octets=bs.hex())
         elif bs[2] * 256 + bs[3] != len(bs):
-            fail('length-field', msg=jdesc(fin), ctor=jdesc(ctor), declared=bs[2] * 256 + bs[3], actual=len(bs), octets=bs.hex()[:400])
+            fail('length-field', msg=jdesc(fin), ctor=jdesc(ctor), declared=bs[2] * 256 + bs[3], actual=len(bs), octets=bs.hex())
         elif bs != spec_frame(fin):
-            fail('layout', msg=jdesc(fin), ctor=jdesc(ctor), octets=bs.hex()[:400], want=spec_frame(fin).hex()[:400])
+            fail('layout', msg=jdesc(fin), ctor=jdesc(ctor), octets=bs.hex(), want=spec_frame(fin).hex()[:400])
         nontriv.add(('stale', repr(ctor), repr(fin)))
 
     # 1c. histories in one process: every frame still round-trips, and a decoded message does not change afterwards
@@ -880,7 +933,7 @@ def direct(rng, tier, focus=()):
             if op[0] == 'dec':
                 want = [CODES[m[0]], len(spec_frame(m))] + spec_params(m)
                 if r[1] is None:
-                    fail('history-frame-refused', step=i, ops_repr=repr(ops), ops=[[o[0], jdesc(o[1])] for o in ops], octets=spec_frame(m).hex()[:400])
+                    fail('history-frame-refused', step=i, ops_repr=repr(ops), ops=[[o[0], jdesc(o[1])] for o in ops], octets=spec_frame(m).hex())
                     continue
                 if r[3] != want:
                     fail('history-roundtrip-differs', step=i, ops_repr=repr(ops), ops=[[o[0], jdesc(o[1])] for o in ops], got=r[3][:80], want=want[:80])
@@ -903,7 +956,8 @@ def direct(rng, tier, focus=()):
             if t != 0x81:
                 check_refused(bytes([t]) + bs[1:], 'bad-type', type_octet=t)
         L = len(bs)
-        for v in {L - 1, L + 1, 0, 4, L + 256, (L + 0x8000) & 0xFFFF, 0xFFFF, rng.randrange(65536), rng.randrange(65536)}:
+        for v in {L - 1, L + 1, 0, 4, L + 256, (L + 0x8000) & 0xFFFF, 0xFFFF, rng.randrange(65536), rng.randrange(65536),
+                  L - 4, L + 4, L - 6, L + 6, L - 10, L + 10, L - 14, ((L & 255) << 8) | (L >> 8)}:
             v &= 0xFFFF
             if v != L:
                 check_refused(bs[:2] + bytes([v >> 8, v & 255]) + bs[4:], 'bad-length', declared=v, actual=L)
@@ -913,6 +967,39 @@ def direct(rng, tier, focus=()):
         for ext in (1, 2, 6, 10):
             check_refused(bs + bytes(rng.randrange(256) for _ in range(ext)), 'extended', declared=L, actual=L + ext)
         nontriv.add(('refusal', bs))
+
+    # 2b. wrong-length-field sweeps: whatever the function, a datagram whose 16-bit length field differs from its
+    #     octet count must be refused.  (i) EVERY field value != L for a representative valid frame of every function
+    #     (acks and tables with 0..3 entries, NPDU carriers up to the largest frame, datagrams of 256/512/768/1024/1280
+    #     octets); (ii) for every function code 0..12 and every datagram length of LEN_GRID, the structured values
+    #     (near misses, header/entry-size offsets, byte swap, every (hi, lo) with lo < 16); thorough: every value there too.
+    def sweep(bs, values, why):
+        L = len(bs)
+        b = bytearray(bs)
+        for v in values:
+            if v == L:
+                continue
+            b[2], b[3] = v >> 8, v & 255
+            stats['evaluations'] += 1
+            st, x = try_decode(bytes(b))
+            if st == 'ok':
+                fail('accepted-' + why, octets=bytes(b).hex(), delivered=type(x).__name__, declared=v, actual=L, fn=b[1])
+            elif st == 'error':
+                fail('wrong-exception-' + why, octets=bytes(b).hex(), exc=x, declared=v, actual=L, fn=b[1])
+
+    reps = representative_frames(rng)
+    for bs in reps:
+        sweep(bs, range(65536), 'bad-length')
+        nontriv.add(('lensweep', bs))
+    grid_fns = range(13) if big else [0, 3, 4, 7, 9, 10, 11, 12]
+    for fn in grid_fns:
+        for L in LEN_GRID:
+            bs = header(fn, L) + bytes(rng.randrange(256) for _ in range(L - 4))
+            sweep(bs, range(65536) if big else structured_fields(L), 'bad-length')
+            nontriv.add(('lengrid', fn, L))
+    stats['length_field_sweep'] = ('every 16-bit field value != L on %d representative valid frames (all 12 functions); '
+                                   'function codes %s x %d datagram lengths x %s'
+                                   % (len(reps), list(grid_fns), len(LEN_GRID), 'every value' if big else 'structured values (~4.4 k each)'))
 
     # 3. function codes 0..255 with a consistent header
     for fn in range(256):
@@ -983,7 +1070,7 @@ def direct(rng, tier, focus=()):
             stats['evaluations'] += 1
             st, x = try_decode(mb)
             if st == 'error':
-                fail('mutated-frame-wrong-exception', octets=mb.hex()[:400], exc=x)
+                fail('mutated-frame-wrong-exception', octets=mb.hex(), exc=x)
             elif st == 'ok':
                 check_accepted_frame_consistent(mb, x)
     for dsc in focus:
@@ -991,7 +1078,7 @@ def direct(rng, tier, focus=()):
             mb = bytes.fromhex(dsc['octets'])
             st, x = try_decode(mb)
             if st == 'error':
-                fail('mutated-frame-wrong-exception', octets=mb.hex()[:400], exc=x)
+                fail('mutated-frame-wrong-exception', octets=mb.hex(), exc=x)
             elif st == 'ok':
                 check_accepted_frame_consistent(mb, x)
     stats['distinct_nontrivial'] = len(nontriv)
